@@ -102,7 +102,7 @@ def ukfc_case(g, tier):
     big = 5 if tier == "quick" else 6
     variant = r.choice([0, 1])
     n = r.randint(1, big)
-    m = r.randint(1, big)
+    m = 1 if r.random() < 0.2 else r.randint(1, big)     # scalar measurements: the likelihood's m = 1 path
     k = r.choice([1, 1, 2, 3, 4])
     fail = r.choice([0] * 12 + [1, 2, 3])
     online = variant == 1 and r.random() < 0.4
@@ -300,7 +300,7 @@ def check_ukfp(meta, h, stats, notes):
         return probs, o, None
     means, covs = aug_beliefs(meta, meta["Q"])
     _, _, c = U.weights_frac(N, meta["alpha"], meta["beta"], meta["kappa"])
-    pp, Bs = U.check_points_linear(X, means, covs, c, N, k, stats, "ukfp")
+    pp, Bs = U.check_points_linear(X, means, covs, c, N, k, stats, "ukfp", U.weight_tols(N, meta["alpha"], meta["beta"], meta["kappa"])[2])
     if pp:  # sigma-point predicates belong to C03; here they are counted only
         notes["sigma_point_predicates_failed(C03)"] = notes.get("sigma_point_predicates_failed(C03)", 0) + len(pp)
     return probs, o, Bs
@@ -433,7 +433,7 @@ def check_ukfc(meta, h, stats, notes):
         return probs, o, None
     means, covs = aug_beliefs(meta, meta["R"])
     _, _, c = U.weights_frac(N, meta["alpha"], meta["beta"], meta["kappa"])
-    pp, Bs = U.check_points_linear(X, means, covs, c, N, k, stats, "ukfc")
+    pp, Bs = U.check_points_linear(X, means, covs, c, N, k, stats, "ukfc", U.weight_tols(N, meta["alpha"], meta["beta"], meta["kappa"])[2])
     if pp:  # sigma-point predicates belong to C03; here they are counted only
         notes["sigma_point_predicates_failed(C03)"] = notes.get("sigma_point_predicates_failed(C03)", 0) + len(pp)
     return probs, o, Bs
@@ -553,12 +553,12 @@ def run(ctx):
     binary = vlib.build_harness("h_ut")
     stats, hist, notes = {}, {}, {}
     g = ctx.gen("ukf")
-    NP, NC = ctx.n(110, 3000), ctx.n(130, 4000)
+    NP, NC = ctx.n(90, 600), ctx.n(110, 800)
     objects = []
     for mk in [ukfp_case] * NP + [ukfc_case] * NC:
         st = [mk(g, ctx.tier)]
-        if g.r.random() < 0.3:
-            for _ in range(g.r.choice([1, 2])):
+        if g.r.random() < 0.4:
+            for _ in range(g.r.choice([1, 2, 3])):
                 st.append(derive_step(st[0], g))
         objects.append(st)
     if ctx.replay:
@@ -640,7 +640,7 @@ def run(ctx):
         "rule": "random linear-Gaussian models: prediction x' = F x (+ u) + w (additive) and x' = F x + G w (+ u) (augmented), correction "
                 "y = H x + v (additive) and y = H x + D v (augmented); n, m in 1..%d, noise rows 1..3 / m..m+1, 1..4 distinct components, PSD P incl. "
                 "singular, F/H incl. zero / rank-deficient / triangular, alpha in [0.1, 2], beta, kappa >= 0; skipping state model; failing model "
-                "calls (counted only); non-trivial = more than one input dimension or more than one component; distinct = distinct input lines" % (5 if ctx.quick() else 6),
+                "calls (counted only); 40 %% of the objects are driven through 2..4 successive steps with new component counts (non-monotone), beliefs, measurements, skip / failure flags; non-trivial = more than one input dimension or more than one component; distinct = distinct input lines" % (5 if ctx.quick() else 6),
         "samples": [hl[0][:400], hl[-1][:400]],
         "branch_histogram": hist,
         "code_branches_hit": {
